@@ -110,7 +110,8 @@ def run(facts, R):
                         for e in p["p"]:
                             if isinstance(e, dict) and e.get("a") == INNER:
                                 reads.append((x, j, e["f"]))
-        outside = [r for r in reads if r[0] not in cyc]
+        # (a read after the loop - the predicate run once more after the final timed-out wake-up - is fresh, not hoisted)
+        outside = [r for r in reads if r[0] not in cyc and i in b.reachable((r[0],))]
         R.check(not outside, "wait-in-loop", fn, "reads-inside-loop",
                 "predicate state %s is read outside the waiting loop (stale after a wake-up)" % sorted({r[2] for r in outside}),
                 t.get("span"), "%d reads of TransferControlInner fields, all inside the waiting cycle" % len(reads))
@@ -123,7 +124,10 @@ def run(facts, R):
         if first is None:
             R.bad("wait-in-loop", fn, "retest", "no predicate read dominates the condvar wait", t.get("span"))
         else:
-            w = must_cross(b, [term_pt(b, i)], return_points(b), [(first[0], first[1])])
+            # the head of the chain is the read of its first field; a second copy of the chain (the predicate run again after the
+            # last wake-up) starts with the same read
+            heads_ = [(r[0], r[1]) for r in reads if r[2] == first[2]]
+            w = must_cross(b, [term_pt(b, i)], return_points(b), heads_)
             R.check(w is None, "wait-in-loop", fn, "retest-from-head",
                     "after the condvar wait a return is reachable without re-running the predicate chain from its "
                     "head (read of `%s`)" % first[2], t.get("span"),
@@ -245,6 +249,17 @@ def run(facts, R):
                         and is_call(e[2][0][2][1], "Instant::now"):
                     ok = True
                     deadline_txt = render(e[2][0][2][0])
+            for f in fs:
+                e, v = f["expr"], f["val"]
+                if v is True and is_call(e, "timed_out"):
+                    for x in walk(e):
+                        if is_call(x, "wait_timeout") and len(x[2]) == 3 and (is_call(x[2][2], "saturating_duration_since") or is_call(x[2][2], "sub")) \
+                                and len(x[2][2][2]) == 2 and is_call(x[2][2][2][1], "Instant::now"):
+                            nowbb, wbb = x[2][2][2][1][3], x[3]
+                            # the remaining time is recomputed for this very wait: the clock is read on the cycle of the wait
+                            if wbb in b.reachable((nowbb,)) and nowbb in b.reachable((wbb,)):
+                                ok = True
+                                deadline_txt = render(x[2][2][2][0])
             R.check(ok, "timeout-at-deadline", b.path, "Timeout-guard",
                     "Timeout is returned on a path not guarded by `Instant::now() >= deadline`; guards: %s" % texts(fs), s.get("span"),
                     "Timeout only on now >= deadline")
@@ -264,12 +279,15 @@ def run(facts, R):
                     if len(somes) == 1:
                         d = somes[0]
             ok = (is_call(d, "sub") or is_call(d, "saturating_duration_since") or is_call(d, "duration_since")) and len(d[2]) == 2 and render(d[2][0]) == deadline_txt and is_call(d[2][1], "Instant::now")
-            R.check(ok, "timeout-at-deadline", b.path, "wait-duration",
-                    "wait duration is %s, expected deadline - now with deadline=%s" % (render(d), deadline_txt), t.get("span"),
-                    render(d))
+            fresh = ok and len(d[2][1]) > 3 and i in b.reachable((d[2][1][3],)) and d[2][1][3] in b.reachable((i,))
+            R.check(ok and fresh, "timeout-at-deadline", b.path, "wait-duration",
+                    "wait duration is %s%s, expected deadline - now (clock read again before every wait) with deadline=%s"
+                    % (render(d), "" if fresh or not ok else " computed once outside the waiting loop: every wake-up that leaves the condition false re-arms the full timeout",
+                       deadline_txt), t.get("span"), render(d))
             # the wait itself happens only while now < deadline
             fs = facts_at(b, sym, facts, i)
             lt = any((f["val"] is False and is_call(f["expr"], "ge")) or (f["val"] is True and is_call(f["expr"], "lt")) or
                      (f["val"] is False and is_call(f["expr"], "is_zero") and "duration_since" in render(f["expr"])) for f in fs)
+            lt = lt or is_call(d, "saturating_duration_since")      # saturates at zero: no panic, and a zero wait times out at once
             R.check(lt, "timeout-at-deadline", b.path, "wait-before-deadline",
                     "parks without having checked now < deadline (deadline - now would panic / wait is unbounded)", t.get("span"))
